@@ -10,6 +10,7 @@ from __future__ import annotations
 
 import copy
 import itertools
+import time
 
 import numpy as np
 from fractions import Fraction
@@ -596,6 +597,11 @@ def scheme_families(rep, tier="quick"):
 
 
 def eko_basis_standin(rep):
+    _eko_basis_concrete_grids(rep)
+    eko_basis_symbolic_grid(rep)
+
+
+def _eko_basis_concrete_grids(rep):
     """Stand-in for assumption A-eko, bounded in the GRID (six grids: linear/logarithmic, degree 1-3,
     4-7 nodes) but not in x: eko's real evaluate_x / log_evaluate_x -- the functions yadism's quadrature
     kernels call -- are executed on a symbolic x over the whole interval [x_0, 1] (every area, every
@@ -720,6 +726,160 @@ def bounded_ob(rep, name, fn):
     o.bounded = True
     rep.add(o)
 
+def eko_basis_symbolic_grid(rep, tier="quick"):
+    """Assumption A-eko with the GRID symbolic: eko's real BasisFunction / Area constructors are run on
+    nodes t_0 < t_1 < ... < t_{N-1} that are symbols (any positions, at least eko's comparison
+    tolerance 2.2e-15 apart), and eko's real evaluate_x on a symbolic point x.  In log mode eko applies
+    exactly these functions to t_k = log x_k and u = log x (log_evaluate_x(x, a) = evaluate_x(log x, a);
+    log is increasing), so one run covers linear and logarithmic grids.  Obligations, each an exact
+    identity in Q(t_0..t_{N-1}, x) decided by the normaliser on every path:
+
+      * partition of unity: sum_j p_j(x) = 1 for every x in [t_0, t_{N-1}] outside the tolerance bands
+        (t_k - 2.2e-15, t_k) below the interior nodes;
+      * inside such a band eko additionally evaluates the basis functions whose support starts at t_k, in
+        their first area: those area polynomials vanish at t_k (so the excess is O(2.2e-15));
+      * p_j(t_k) = delta_jk for every node (x := t_k, the node symbol itself);
+      * each p_j is continuous at the inner borders of its support and vanishes at its outer borders
+        unless the border is the end of the grid.
+
+    Bounded in the number of nodes and the degree only (degree 1..4, N = degree+1 .. degree+3 -- every
+    shape of interpolation window: clamped left, interior, clamped right); an area polynomial depends
+    only on the degree+1 nodes of its window, which is why nothing changes for longer grids (argument,
+    not a discharged obligation).  Labelled bounded."""
+    from eko import interpolation as I
+    from pvc.core import Ob, PROVED, REFUTED, UNDECIDED
+    from pvc.explore import explore
+    from pvc.ratfun import identity
+
+    eps = R.const(Fraction(I._atol_eps).limit_denominator(10**40)) if hasattr(I, "_atol_eps") else R.const(Fraction(1, 10**14))
+    x = R.var("x")
+    shapes = [(deg, N) for deg in ((1, 2, 3, 4) if tier == "thorough" else (1, 2, 3, 4)) for N in range(deg + 1, deg + (4 if deg < 4 or tier == "thorough" else 3))]
+    for deg, N in shapes:
+        tag = f"symbolic grid({N} nodes, degree {deg})"
+        t0 = time.time()
+        nodes = [R.var(f"t{k}") for k in range(N)]
+        pre_grid = [compare_ge(nodes[k + 1] - nodes[k], eps) for k in range(N - 1)]
+        try:
+            # the dispatcher's own block construction, on a grid object whose entries are the symbols
+            disp = _symbolic_dispatcher(I, nodes, deg)
+            bfs = list(disp)
+        except Exception as e:  # noqa
+            o = Ob(f"{rep.pid}/A-eko[symbolic grid]/{tag}/construction", "bounded", UNDECIDED, "engine", 0, f"{type(e).__name__}: {e}")
+            o.bounded = True
+            rep.add(o)
+            continue
+        # (1) partition of unity away from the bands
+        pre = pre_grid + [x >= nodes[0], x <= nodes[-1]] + [Or_(x <= nodes[k] - eps, x > nodes[k]) for k in range(1, N)]  # x = t_k itself: the node obligations below
+        bad, und, npaths = [], 0, 0
+        try:
+            paths = explore(lambda: [I.evaluate_x(x, bf.areas_representation) for bf in bfs], pre, max_paths=2048, budget_s=120)
+            npaths = len(paths)
+            for p in paths:
+                if p.exc is not None:
+                    bad.append(f"raises {p.exc!r} on {[str(c) for c in p.pc][:4]}")
+                    continue
+                tot = sum((R.lift(v) for v in p.result), R.const(0))
+                st, info = identity(tot, R.const(1))
+                if st != "proved":
+                    bad.append(f"sum - 1 = {info.get('residual_sample')} on {[str(c) for c in p.pc][:4]}")
+            st_ = PROVED if not bad and npaths else (REFUTED if bad else UNDECIDED)
+            det = f"{npaths} paths; {bad[:2]}" if bad else f"{npaths} paths"
+        except Exception as e:  # noqa
+            st_, det = UNDECIDED, f"{type(e).__name__}: {e}"
+        o = Ob(f"{rep.pid}/A-eko[symbolic grid]/{tag}/partition of unity for every x in [t_0, t_N-1) outside the comparison-tolerance bands (t_k - 2.2e-15, t_k]", "bounded", st_, "normaliser", time.time() - t0, det)
+        o.bounded = True
+        rep.add(o)
+        # (2) nodes: p_j(t_k) = delta_jk with x := the node symbol; (3) borders
+        bad = []
+        for k in range(N):
+            for j, bf in enumerate(bfs):
+                try:
+                    ps = explore(lambda: I.evaluate_x(nodes[k], bf.areas_representation), pre_grid, max_paths=64, budget_s=30)
+                    for p in ps:
+                        if p.exc is not None:
+                            bad.append(("raises", j, k, repr(p.exc)))
+                            continue
+                        st, info = identity(R.lift(p.result), R.const(1 if j == k else 0))
+                        if st != "proved":
+                            bad.append(("p_j(t_k) != delta_jk", j, k, info.get("residual_sample")))
+                except Exception as e:  # noqa
+                    bad.append(("engine", j, k, f"{type(e).__name__}: {e}"))
+        for j, bf in enumerate(bfs):
+            ar = bf.areas_representation
+            ev = lambda a, t: sum((R.lift(c) * t**i for i, c in enumerate(a[2:])), R.const(0))  # noqa: E731
+            for a, b in zip(ar[:-1], ar[1:]):
+                if a[1] is b[0] or identity(R.lift(a[1]), R.lift(b[0]))[0] == "proved":
+                    if identity(ev(a, R.lift(a[1])), ev(b, R.lift(b[0])))[0] != "proved":
+                        bad.append(("jump at an inner border", j, str(a[1]), None))
+                else:
+                    bad.append(("support is not an interval", j, str(a[1]), str(b[0])))
+            lo, hi = R.lift(ar[0][0]), R.lift(ar[-1][1])
+            if identity(lo, nodes[0])[0] != "proved" and identity(ev(ar[0], lo), R.const(0))[0] != "proved":
+                bad.append(("non-zero at the lower border of its support", j, str(lo), None))
+            if identity(hi, nodes[-1])[0] != "proved" and identity(ev(ar[-1], hi), R.const(0))[0] != "proved":
+                bad.append(("non-zero at the upper border of its support", j, str(hi), None))
+        o = Ob(f"{rep.pid}/A-eko[symbolic grid]/{tag}/p_j(t_k) = delta_jk; continuous at inner borders; zero at the borders of the support (also the polynomial evaluated inside a tolerance band)", "bounded", PROVED if not bad else REFUTED, "normaliser", time.time() - t0, str(bad[:3]) if bad else f"{N} basis functions x {N} nodes")
+        o.bounded = True
+        rep.add(o)
+
+    # canary: the same machinery must refute a basis whose middle polynomial is scaled
+    from eko import interpolation as I2
+
+    orig_cc = I2.Area._compute_coefs
+    try:
+        I2.Area._compute_coefs = lambda self, xgrid: orig_cc(self, xgrid) * (2 if self.poly_number == 1 else 1)
+        nodes = [R.var(f"t{k}") for k in range(3)]
+        bfs = list(_symbolic_dispatcher(I2, nodes, 1))
+        pre = [compare_ge(nodes[k + 1] - nodes[k], eps) for k in range(2)] + [x >= nodes[0], x <= nodes[-1]] + [Or_(x <= nodes[k] - eps, x > nodes[k]) for k in range(1, 3)]
+        paths = explore(lambda: [I2.evaluate_x(x, bf.areas_representation) for bf in bfs], pre, max_paths=64, budget_s=30)
+        caught = any(p.exc is None and identity(sum((R.lift(v) for v in p.result), R.const(0)), R.const(1))[0] != "proved" for p in paths)
+    except Exception:  # noqa
+        caught = False
+    finally:
+        I2.Area._compute_coefs = orig_cc
+    if not caught:
+        o = Ob(f"{rep.pid}/A-eko[symbolic grid]/canary: a scaled basis polynomial must break the partition of unity", "bounded", UNDECIDED, "engine", 0, "the tampered basis was accepted: the obligation above decides nothing")
+        o.bounded = True
+        rep.add(o)
+
+
+def compare_ge(a, b):
+    return R.lift(a) >= R.lift(b)
+
+
+def Or_(*bs):
+    from pvc.sym import Or
+
+    return Or(*bs)
+
+
+class _SymGrid:
+    """What InterpolatorDispatcher reads from an XGrid: .grid (the nodes, log-transformed in log mode),
+    .log, len()."""
+
+    def __init__(self, nodes):
+        self.grid = np.array(nodes, dtype=object)
+        self.log = False
+        self.raw = self.grid
+
+    def __len__(self):
+        return len(self.grid)
+
+
+def _symbolic_dispatcher(I, nodes, deg):
+    """eko's InterpolatorDispatcher.__init__ on a grid of symbols.  Two things are changed around the real
+    code and nothing else: the isinstance(xgrid, XGrid) test is satisfied by deriving the stand-in grid from
+    XGrid without running its float conversion, and np.ones (the seed of Area._compute_coefs) yields an
+    exact one in an object array instead of a float64 array that cannot hold a symbol."""
+    G = type("_SymXGrid", (I.XGrid,), {"__init__": lambda self, nodes: (setattr(self, "grid", np.array(nodes, dtype=object)), setattr(self, "log", False), None)[-1], "__len__": lambda self: len(self.grid)})
+    orig = np.ones
+    try:
+        np.ones = lambda n, *a, **k: np.array([R.const(1)] * int(n), dtype=object)  # noqa: E731
+        return I.InterpolatorDispatcher(G(nodes), deg, mode_N=False)
+    finally:
+        np.ones = orig
+
+
 
 # ---------------------------------------------------------------------------------------
 # documented observable names (docs/source/theory/intro.rst, docs/source/user): typed here, NOT read from
@@ -763,6 +923,118 @@ def observable_names_contract(rep):
             bad.append((name, f"{type(e).__name__}: {e}"))
     rep.cases += 1
     rep.add(ob_eval(f"{rep.pid}/observable_name/every documented kind x heavyness is a valid name and parses into its parts; nothing else is", not bad, detail=str(bad[:4]), inputs={} if not bad else {"name": bad[0][0], "observed": bad[0][1], "all": str(bad[:8])}))
+    observable_name_functions_contract(rep)
+
+
+# classification of the heavyness part, typed from the documentation of the observable names
+# (docs/source/theory/intro.rst, "heavyness"): (is_heavy, is_raw_heavy, is_heavylight, is_composed,
+# flavour family, heavy-quark number, underlying quark, mass entry of the theory card)
+DOC_HEAVYNESS_TABLE = {
+    "charm": (True, True, False, False, "heavy", 4, "charm", "mc"),
+    "bottom": (True, True, False, False, "heavy", 5, "bottom", "mb"),
+    "top": (True, True, False, False, "heavy", 6, "top", "mt"),
+    "light": (False, False, False, False, "light", 0, "light", None),
+    "total": (True, False, False, True, "total", 0, None, "mt"),
+    "charmlight": (True, False, True, False, "light", 4, "charm", "mc"),
+    "bottomlight": (True, False, True, False, "light", 5, "bottom", "mb"),
+    "toplight": (True, False, True, False, "light", 6, "top", "mt"),
+}
+
+
+def observable_name_functions_contract(rep):
+    """Complete functional contract of yadism.observable_name.ObservableName over its whole (finite) domain:
+    every documented kind x heavyness.  Each predicate / projection equals the typed table above; the
+    constructors apply_kind / apply_flavor / apply_flavor_family build exactly the named object; equality is
+    component-wise over all pairs; has_heavies / has_lights over every list of 0..2 names (valid and invalid
+    mixed; the loop is 'return on first hit', so longer lists add nothing).  The domain is finite and is
+    enumerated completely: these are proofs by exhaustion, not samples."""
+    from pvc.core import ob_eval
+    from yadism import observable_name as on
+
+    O = on.ObservableName
+    rep.under_contract(O.is_heavy.fget, O.is_raw_heavy.fget, O.is_heavylight.fget, O.is_composed.fget, O.flavor_family.fget, O.hqnumber.fget, O.raw_flavor.fget, O.mass_label.fget, O.name.fget, O.apply_kind, O.apply_flavor, O.apply_flavor_family, O.__eq__, O.__repr__, O.has_heavies.__func__, O.has_lights.__func__)
+    kinds = DOC_SF_KINDS + DOC_XS_KINDS
+    names = ("is_heavy", "is_raw_heavy", "is_heavylight", "is_composed", "flavor_family", "hqnumber", "raw_flavor", "mass_label")
+    bad = []
+    for kind in kinds:
+        for fl, row in DOC_HEAVYNESS_TABLE.items():
+            try:
+                o = O(f"{kind}_{fl}")
+                for nm, exp in zip(names, row):
+                    if nm == "raw_flavor" and exp is None:
+                        continue  # no single underlying quark for a composed observable: nothing is specified
+                    if nm == "mass_label" and fl == "total":
+                        continue  # not specified for a composed observable
+                    got = getattr(o, nm)
+                    if type(exp) is bool:
+                        got = bool(got) if isinstance(got, (bool, int)) and not isinstance(got, str) else got
+                    if got != exp or (type(exp) is int and isinstance(got, bool)):
+                        bad.append((f"{kind}_{fl}", nm, repr(got), repr(exp)))
+                if o.name != f"{kind}_{fl}" or repr(o) != f"{kind}_{fl}":
+                    bad.append((f"{kind}_{fl}", "name/repr", f"{o.name}/{o!r}", f"{kind}_{fl}"))
+                fam = o.apply_flavor_family()
+                if (fam.kind, fam.flavor) != (kind, row[4]) or type(fam) is not O:
+                    bad.append((f"{kind}_{fl}", "apply_flavor_family", f"{fam.kind}_{fam.flavor}", f"{kind}_{row[4]}"))
+                if (o.kind, o.flavor) != (kind, fl):
+                    bad.append((f"{kind}_{fl}", "apply_flavor_family changed the receiver", f"{o.kind}_{o.flavor}", f"{kind}_{fl}"))
+            except Exception as e:  # noqa
+                bad.append((f"{kind}_{fl}", "raised", f"{type(e).__name__}: {e}", "a value"))
+    rep.cases += len(kinds) * len(DOC_HEAVYNESS_TABLE)
+    rep.add(ob_eval(f"{rep.pid}/observable_name/functions: heavyness predicates, family, heavy-quark number, underlying quark, mass label equal the documented table for every kind x heavyness", not bad, detail=f"{len(kinds) * len(DOC_HEAVYNESS_TABLE)} names x {len(names)} functions; first deviations {bad[:3]}", inputs={} if not bad else {"name": bad[0][0], "function": bad[0][1], "observed": bad[0][2], "expected": bad[0][3], "all": str(bad[:8])}))
+    # constructors: every (name, new kind) and (name, new heavyness)
+    bad = []
+    n = 0
+    for kind in kinds:
+        for fl in DOC_HEAVYNESS_TABLE:
+            try:
+                o = O(f"{kind}_{fl}")
+                for k2 in kinds:
+                    n += 1
+                    r = o.apply_kind(k2)
+                    if (r.kind, r.flavor) != (k2, fl) or (o.kind, o.flavor) != (kind, fl) or r is o:
+                        bad.append((f"{kind}_{fl}", f"apply_kind({k2})", f"{r.kind}_{r.flavor}", f"{k2}_{fl}"))
+                for f2 in tuple(DOC_HEAVYNESS_TABLE) + ("heavy",):
+                    n += 1
+                    r = o.apply_flavor(f2)
+                    if (r.kind, r.flavor) != (kind, f2) or (o.kind, o.flavor) != (kind, fl) or r is o:
+                        bad.append((f"{kind}_{fl}", f"apply_flavor({f2})", f"{r.kind}_{r.flavor}", f"{kind}_{f2}"))
+            except Exception as e:  # noqa
+                bad.append((f"{kind}_{fl}", "raised", f"{type(e).__name__}: {e}", "an object"))
+    rep.cases += n
+    rep.add(ob_eval(f"{rep.pid}/observable_name/functions: apply_kind / apply_flavor build exactly the named observable and leave the receiver alone (every name x every kind / heavyness)", not bad, detail=f"{n} constructions; {bad[:3]}", inputs={} if not bad else {"name": bad[0][0], "call": bad[0][1], "observed": bad[0][2], "expected": bad[0][3]}))
+    # equality: component-wise over all pairs
+    bad = []
+    allnames = [(k, f) for k in kinds for f in DOC_HEAVYNESS_TABLE]
+    objs = {}
+    try:
+        objs = {kf: O(f"{kf[0]}_{kf[1]}") for kf in allnames}
+        for a in allnames:
+            for b in allnames:
+                got = objs[a] == objs[b]
+                if bool(got) != (a == b):
+                    bad.append((f"{a[0]}_{a[1]}", f"{b[0]}_{b[1]}", repr(got)))
+    except Exception as e:  # noqa
+        bad.append(("-", "-", f"{type(e).__name__}: {e}"))
+    rep.cases += len(allnames) ** 2
+    rep.add(ob_eval(f"{rep.pid}/observable_name/functions: two observable names are equal iff kind and heavyness are (all {len(allnames) ** 2} pairs)", not bad, detail=str(bad[:3]), inputs={} if not bad else {"a": bad[0][0], "b": bad[0][1], "observed a == b": bad[0][2]}))
+    # has_heavies / has_lights: any valid name that is not / is light; invalid entries are ignored
+    pool = ["F2_light", "F2_total", "F2_charm", "FL_bottomlight", "XSHERANC_light", "XSHERANC", "g1_top", "F3_light", "pids", "xgrid", "interpolation_is_log", "F2_strange", "F9_light", "F9_charm"]
+    spec_valid = {nm: (nm.split("_")[0] in kinds and (len(nm.split("_")) == 1 or (len(nm.split("_")) == 2 and nm.split("_")[1] in DOC_HEAVYNESS_TABLE))) for nm in pool}
+    spec_fl = {nm: (nm.split("_")[1] if "_" in nm else "total") for nm in pool}
+    bad = []
+    lists = [[]] + [[a] for a in pool] + [[a, b] for a in pool for b in pool]
+    for lst in lists:
+        exp_h = any(spec_valid[nm] and spec_fl[nm] != "light" for nm in lst)
+        exp_l = any(spec_valid[nm] and spec_fl[nm] == "light" for nm in lst)
+        for make in (list, tuple, lambda l: dict.fromkeys(l, 1)):
+            try:
+                gh, gl = O.has_heavies(make(lst)), O.has_lights(make(lst))
+                if bool(gh) != exp_h or bool(gl) != exp_l:
+                    bad.append((str(lst), f"has_heavies={gh} has_lights={gl}", f"{exp_h} {exp_l}"))
+            except Exception as e:  # noqa
+                bad.append((str(lst), f"{type(e).__name__}: {e}", f"{exp_h} {exp_l}"))
+    rep.cases += 3 * len(lists)
+    rep.add(ob_eval(f"{rep.pid}/observable_name/functions: has_heavies / has_lights = some valid name in the list is not / is light (lists, tuples, dict keys of 0..2 entries, invalid entries ignored)", not bad, detail=f"{3 * len(lists)} collections; {bad[:3]}", inputs={} if not bad else {"names": bad[0][0], "observed": bad[0][1], "expected (heavies, lights)": bad[0][2]}))
 
 
 def special_functions_contract(rep):
